@@ -4,7 +4,7 @@ import itertools
 
 import numpy as np
 
-from lbv import core, hist as H
+from lbv import core, env as E, hist as H
 from lbv.core import V
 from lbv import families as F
 from lbv.props import c13
@@ -46,9 +46,12 @@ def cases(tier, variants):
                 for box, start in (("free", "in"), ("box", "face")):
                     probs.append(dict(kind="nonconvex", fam=fam, n=n, box=box, start=start, var=v))
             for pr in probs:
-                for mls, mf, mc in itertools.product((1, 3, 20), (6, 20, 3000), (1, 3)):
+                for mls, mf, mc in itertools.product((1, 2, 3, 20), (6, 20, 3000), (1, 3)):
                     for u in ("pure", "scribble", "samebuf"):
                         yield dict(pr, part="run", maxls=mls, maxfun=mf, maxcor=mc, user=u)
+    for mls, mc in itertools.product((1, 2, 3), (1, 2, 3)):
+        yield dict(kind="nonconvex", fam="coswell2", n=2, box="free", start="in", var=0,
+                   part="run", maxls=mls, maxfun=3000, maxcor=mc, user="pure")
     mcs = (2, 5) if tier == "quick" else (1, 2, 3, 5)
     for b in H.base_runs(variants, maxcors=mcs):
         for k in range(1, 9):
@@ -57,6 +60,17 @@ def cases(tier, variants):
         for k in range(0, 8):
             for rw in c13.REWRITES:
                 yield dict(b, part="rw", k=k, rw=rw)
+        # arbitrary rewrites (flip / anti-curvature), also with a stop criterion firing at
+        # the very iteration of the rewrite: what the *returned* operator then carries
+        for k in range(2, 8):
+            npts = min(b["maxcor"] + 1, k + 1)
+            for mask in range(1, 2 ** npts):
+                for stop in (False, True):
+                    yield dict(b, part=("flip" if mask % 3 else "anti"), k=k, mask=mask,
+                               stop=stop, inplace=bool(mask % 2), via="c13")
+    # lying environments (answers replaced at up to 2 of the first 6 distinct points):
+    # rejected pairs, failed line searches and memory resets in every order
+    yield from E.env_cases(6, 2, variants)
     for v in variants:
         for dim in range(1, 31):
             for npairs in range(1, 13):
@@ -85,6 +99,30 @@ def run(case):
     from lbfgsb import minimize_lbfgsb, extract_hess_inv_diag
     part = case["part"]
     viol = []
+    if part == "env":
+        try:
+            res, its, env, kw = E.env_run(case)
+        except np.linalg.LinAlgError:
+            return dict(viol=[], outcome="LinAlgError_in_lying_environment",
+                        stats={"env_linalg_error": 1})
+        pts = [env.x0] + [x for x, _ in its]
+        if not any(np.array_equal(res.x, q) for q in pts):
+            pts.append(np.array(res.x, copy=True))
+        grs = [env.table[np.asarray(q, float).tobytes()][1]
+               if np.asarray(q, float).tobytes() in env.table else np.full(2, np.nan) for q in pts]
+        for what, st in [(f"callback{i + 1}", s_) for i, (_, s_) in enumerate(its)] + [("result", res)]:
+            sk, yk = st.hess_inv.sk, st.hess_inv.yk
+            if sk.size and sk.shape[0] > kw["maxcor"]:
+                viol.append(V("more_pairs_than_maxcor", state=what))
+            if sk.size and c13.chain_ok(pts, grs, list(sk), list(yk)) is None:
+                viol.append(V("pairs_are_not_differences_of_visited_points_and_gradients",
+                              state=what, npairs=int(sk.shape[0])))
+                break
+            if sk.size and any(not float(a @ b) > 0 for a, b in zip(sk, yk)):
+                viol.append(V("pair_without_positive_curvature", state=what))
+                break
+        return dict(viol=viol[:3], outcome=f"env|{res.message}",
+                    nontrivial=core.case_hash(case) if res.nit >= 2 else None)
     if part == "diag":
         from scipy.optimize import LbfgsInvHessProduct
         n, m, v = case["dim"], case["npairs"], case["var"]
@@ -122,10 +160,12 @@ def run(case):
                 viol.append(V("diag_utility_differs_from_dense_diagonal", gen=gen, got=d1, want=d2))
         return dict(viol=viol, n_exec=nex, outcome="diag",
                     nontrivial=core.case_hash(case) if case["npairs"] >= 2 else None)
-    if part == "rw":
+    if part == "rw" or case.get("via") == "c13":
         r = c13.run(case)
-        keep = ("too_many_pairs", "pair_without_curvature_after_rewrite",
-                "pair_not_difference_of_rewritten_gradients", "newest_stored_point_dropped")
+        keep = ("pair_without_curvature_after_rewrite",
+                "pair_not_difference_of_rewritten_gradients",
+                "result_pair_without_curvature_when_stopping_at_the_rewrite",
+                "result_pair_not_difference_of_rewritten_gradients_when_stopping")
         return dict(viol=[v_ for v_ in r["viol"] if v_["symptom"] in keep],
                     outcome="redef|" + str(r.get("outcome")), nontrivial=r.get("nontrivial"))
     p = F.problem_of(case)
